@@ -18,7 +18,7 @@ RULE = ("complete products: every dictionary class x every domain value x every 
         "agrees with the class's vendor (quick: the 16 combinations of M, P and two reserved bits; "
         "thorough: all 128); unknown (vendor, code) pairs x flag bytes x data lengths 0..9; Grouped "
         "nesting to depth 2 (quick) / 3 (thorough) with member flag variations; header alphabets x all "
-        "256 command-flag bytes; all streams of 1..3 messages over a 5-message alphabet. A case is one "
+        "256 command-flag bytes; all streams of 1..3 (thorough 1..4) messages over a 5-message alphabet. A case is one "
         "wire image; distinct by construction; non-trivial = contains at least one AVP")
 ASSUMPTIONS = [
     "vk/ref/refcodec.py produces well-formed RFC 6733 wire images",
@@ -338,7 +338,7 @@ def run(report, tier, seed):
     stride = 1 if tier == "thorough" else 8
     for kk in range(0, nk, stride):
         shards.append(("headers", (kk, nk)))
-    shards.append(("streams", (3 if tier == "thorough" else 2,)))
+    shards.append(("streams", (4 if tier == "thorough" else 3,)))
     shards.append(("nesting", (3 if tier == "thorough" else 2, tier)))
     shards.append(("avp-load", None))
     core.run_shards(report, _shard, shards)
